@@ -111,8 +111,9 @@ def run_engine(ck, themes, cfg, prop, replay_fn):
 
 def run(ck: Check) -> int:
     from bounded import C01_gen as G
-    from props import C01_stack
+    from props import C01_stack, C01_I
     C01_stack.run_S(ck)          # the protected-prefix stack ADT and DIG/DUG/DUP/DROP n/SWAP on opaque tokens (lead's part)
+    C01_I.run_I(ck)              # deductive part: the real execute methods of adt / struct / control / compare on opaque and symbolic operands
     n = record_functions(ck)
     ck.assume('the reference semantics specs/michelson_ref.py states the Michelson typing rules and big-step semantics (Mumbai level) '
               'correctly; it is validated against the Octez-produced tuples recorded under tests/unit_tests/test_michelson/test_repl')
@@ -133,7 +134,12 @@ def run(ck: Check) -> int:
         ck.note('reference validation against the recorded Octez tuples runs in the thorough tier (314 of 353 reproduced, 0 mismatches when last run)')
     run_engine(ck, G.THEMES, cfg, 'C01', REPLAY)
     ck.exhaustive = False
-    return ck.finish('exploration',
-                     'R (bounded): final stack / FAILWITH value / run-time error of the real interpreter equals the reference semantics on '
+    return ck.finish('other',
+                     'P/S (PyVC on the real execute methods, props/C01_I.py): CAR CDR PAIR UNPAIR LEFT RIGHT SOME NONE NIL EMPTY_SET EMPTY_MAP IF IF_NONE '
+                     'IF_LEFT DIP EQ NEQ LT GT LE GE UNIT for all operand values of all types (opaque operands, opaque branch bodies: P); PAIR n / UNPAIR n / '
+                     'GET n / UPDATE n on combs up to the stated length, CONS GET MEM UPDATE GET_AND_UPDATE SIZE IF_CONS ITER MAP LOOP LOOP_LEFT DIP n on '
+                     'collections / iteration counts up to the stated size with opaque elements, symbolic key ranks and opaque bodies (S: complete in the '
+                     'values, bounded in the shape): new stack == reference semantics, frame untouched, bodies run on the right stack view in the right '
+                     'order; plus the stack ADT (C01_stack).  R (bounded): final stack / FAILWITH value / run-time error of the real interpreter equals the reference semantics on '
                      'type-directed enumerations of well-typed programs per theme (exhaustive up to exhaustive_len, seeded walks beyond), '
                      'boundary inputs and a product of environments; stack mode on MichelineSequence.execute and contract mode on Interpreter.run_code')
